@@ -288,7 +288,7 @@ func (x *NSGen) expr(depth int) *Node {
 	if depth > 3 {
 		return x.g.simpleVar()
 	}
-	switch r.Intn(12) {
+	switch r.Intn(14) {
 	case 0:
 		cls := x.ref("class", "new")
 		as, ps := x.args()
@@ -345,6 +345,25 @@ func (x *NSGen) expr(depth int) *Node {
 			return x.g.brackets(n)
 		}
 		fallthrough
+	case 10:
+		// names inside array literals, keys, ternaries and assignments
+		k, v := x.expr(depth+1), x.expr(depth+1)
+		if k.Prec < 100 {
+			k = x.g.brackets(k)
+		}
+		it := &Node{Kind: "ExprArrayItem", Kids: []Kid{one("Key", k), one("Val", v)}, Parts: parts(k, t("=>"), v)}
+		arr := &Node{Kind: "ExprArray", Kids: []Kid{list("Items", []*Node{it})}, Parts: parts(t("["), it, t("]")), Prec: 100}
+		tv := x.g.simpleVar()
+		return x.g.brackets(&Node{Kind: "ExprAssign", Kids: []Kid{one("Var", tv), one("Expr", arr)}, Parts: parts(tv, t("="), arr), Prec: precAssign})
+	case 11:
+		c, a, b := x.g.simpleVar(), x.expr(depth+1), x.expr(depth+1)
+		if b.Prec < 100 {
+			b = x.g.brackets(b)
+		}
+		if a.Prec < 100 {
+			a = x.g.brackets(a)
+		}
+		return x.g.brackets(&Node{Kind: "ExprTernary", Kids: []Kid{one("Cond", c), one("IfTrue", a), one("IfFalse", b)}, Parts: parts(c, t("?"), a, t(":"), b), Prec: precTernary})
 	case 9:
 		l, rr := x.expr(depth+1), x.expr(depth+1)
 		if l.Prec < 100 {
@@ -569,6 +588,8 @@ func (x *NSGen) stmts(depth, n int) []*Node {
 		switch k := x.r().Intn(10); {
 		case k < 5 || depth > 2:
 			out = append(out, x.exprStmt(depth))
+		case k == 5 && x.r().Bool():
+			out = append(out, x.control(depth))
 		case k == 5:
 			out = append(out, x.tryCatch(depth))
 		case k == 6:
@@ -581,6 +602,56 @@ func (x *NSGen) stmts(depth, n int) []*Node {
 		}
 	}
 	return out
+}
+
+// control wraps name-bearing expressions into every expression slot of the control structures,
+// so that a traversal that skips one slot leaves its names unresolved.
+func (x *NSGen) control(depth int) *Node {
+	g := x.g
+	body := func() *Node {
+		ss := x.stmts(depth+1, x.r().Intn(2))
+		return &Node{Kind: "StmtStmtList", Kids: []Kid{list("Stmts", ss)}, Parts: parts(t("{"), nodesToParts(ss), t("}"))}
+	}
+	e := func() *Node { return x.expr(depth + 1) }
+	switch x.r().Intn(8) {
+	case 0:
+		i, c, l := []*Node{e()}, []*Node{e(), e()}, []*Node{e(), e()}
+		b := body()
+		return &Node{Kind: "StmtFor", Kids: []Kid{list("Init", i), list("Cond", c), list("Loop", l), one("Stmt", b)},
+			Parts: parts(g.kw("for"), t("("), sepList(i, ","), t(";"), sepList(c, ","), t(";"), sepList(l, ","), t(")"), b)}
+	case 1:
+		c, b := e(), body()
+		n := &Node{Kind: "StmtIf", Kids: []Kid{one("Cond", c), one("Stmt", b)}, Parts: parts(g.kw("if"), t("("), c, t(")"), b)}
+		c2, b2 := e(), body()
+		ei := &Node{Kind: "StmtElseIf", Kids: []Kid{one("Cond", c2), one("Stmt", b2)}, Parts: parts(g.kw("elseif"), t("("), c2, t(")"), b2)}
+		b3 := body()
+		el := &Node{Kind: "StmtElse", Kids: []Kid{one("Stmt", b3)}, Parts: parts(g.kw("else"), b3)}
+		n.Kids = append(n.Kids, list("ElseIf", []*Node{ei}), one("Else", el))
+		n.Parts = append(n.Parts, ei, el)
+		return n
+	case 2:
+		c, b := e(), body()
+		return &Node{Kind: "StmtWhile", Kids: []Kid{one("Cond", c), one("Stmt", b)}, Parts: parts(g.kw("while"), t("("), c, t(")"), b)}
+	case 3:
+		b, c := body(), e()
+		return &Node{Kind: "StmtDo", Kids: []Kid{one("Stmt", b), one("Cond", c)}, Parts: parts(g.kw("do"), b, g.kw("while"), t("("), c, t(")"), t(";"))}
+	case 4:
+		ex, v, b := e(), g.simpleVarPlain(), body()
+		return &Node{Kind: "StmtForeach", Kids: []Kid{one("Expr", ex), one("Var", v), one("Stmt", b)}, Parts: parts(g.kw("foreach"), t("("), ex, g.kw("as"), v, t(")"), b)}
+	case 5:
+		c := e()
+		ce := e()
+		ss := x.stmts(depth+1, 1)
+		cs := &Node{Kind: "StmtCase", Kids: []Kid{one("Cond", ce), list("Stmts", ss)}, Parts: parts(g.kw("case"), ce, t(":"), nodesToParts(ss))}
+		ds := x.stmts(depth+1, 1)
+		df := &Node{Kind: "StmtDefault", Kids: []Kid{list("Stmts", ds)}, Parts: parts(g.kw("default"), t(":"), nodesToParts(ds))}
+		return &Node{Kind: "StmtSwitch", Kids: []Kid{one("Cond", c), list("Cases", []*Node{cs, df})}, Parts: parts(g.kw("switch"), t("("), c, t(")"), t("{"), cs, df, t("}"))}
+	case 6:
+		es := []*Node{e(), e()}
+		return &Node{Kind: "StmtEcho", Kids: []Kid{list("Exprs", es)}, Parts: parts(g.kw("echo"), sepList(es, ","), t(";"))}
+	}
+	ex := e()
+	return &Node{Kind: "StmtThrow", Kids: []Kid{one("Expr", ex)}, Parts: parts(g.kw("throw"), ex, t(";"))}
 }
 
 // useStmt generates an import statement and updates the model.
